@@ -1,4 +1,5 @@
 CFG = {
+    "coq_crosscheck": ["c20"], "coq_crosscheck_n": 100,
     "group": "c20",
     "level": "proof",
     "coq_targets": ["Properties/C20.vo", 'ParamsTie.vo'],
